@@ -18,7 +18,7 @@ import itertools
 from typing import Any, Dict, List, Optional, Tuple
 
 from ..core import AnalysisError, norm
-from ..minieval import Aborted, Obj, Sim, Unsupported
+from ..minieval import Aborted, Obj, Sim, Unsupported, _Return
 
 LOOP_KINDS = {
     "WhileStatement": "while",
@@ -75,6 +75,12 @@ def _methods_and_classes(ea) -> Tuple[Dict[str, ast.FunctionDef], Dict[str, ast.
     for name, f in ea.methods.items():
         if name.startswith("_emit_") and name not in ("_emit_jump",) or name in ("_new_loop_context",):
             methods[name] = f.node
+        elif not name.startswith(("_compile", "_emit", "_add_", "_get_", "_patch", "_set_loc", "_syntax_error", "__", "_find_", "_collect", "_is_")) and name not in ("compile",) and not isinstance(f.node, ast.Lambda):
+            methods[name] = f.node
+        elif name.startswith(("_find_", "_is_")) and not isinstance(f.node, ast.Lambda) and any(isinstance(x, ast.Attribute) and x.attr == "loop_stack" for x in ast.walk(f.node)):
+            methods[name] = f.node  # target look-up helpers of the leave code
+        elif name.startswith("_compile_") and not isinstance(f.node, ast.Lambda) and any(isinstance(x, ast.Call) and norm(x.func) == "isinstance" and len(x.args) == 2 and any(t in norm(x.args[1]) for t in ("BreakStatement", "ContinueStatement")) for x in ast.walk(f.node)) and name not in ("_compile_statement", "_compile_statement_for_value"):
+            methods[name] = f.node  # a peephole that compiles a jump statement itself
     classes = {}
     for st in comp.module.tree.body:
         if isinstance(st, ast.ClassDef) and st.name.endswith("Context"):
@@ -132,6 +138,8 @@ def simulate(ea) -> List[Dict[str, Any]]:
         rec: Dict[str, Any] = {"cls": cls, "line": line, "stack": stack, "label": label, "status": "ok"}
         try:
             sim.run(body)
+        except _Return:
+            pass  # the branch ends with an early `return`
         except Aborted:
             rec["status"] = "raised"
         except Unsupported as e:
@@ -167,6 +175,49 @@ def simulate(ea) -> List[Dict[str, Any]]:
                     i = stack.index(want)
                     rec["expected"] = _expected(list(reversed(stack[i + 1:])), True)
                     records.append(rec)
+    # a statement form that compiles `break` / `continue` itself (a peephole for `if (c) break;`): the same jump in
+    # the same contexts has to leave the same things behind as the statement's own branch
+    peephole = [nm for nm, fd in methods.items() if nm.startswith("_compile_") and nm in ea.methods]
+    if peephole and "IfStatement" in bodies:
+        for rec0 in [r for r in list(records) if r["what"] in ("break", "continue") and r["status"] == "ok"]:
+            stack0 = rec0["stack"]
+            # fresh copies of the contexts (the earlier run appended to their jump lists)
+            stack = [_mk(kinds, c.kind, c.label, classes) for c in stack0]
+            for new, old_ in zip(stack, stack0):
+                new.label = old_.label
+            cls_j = "BreakStatement" if rec0["what"] == "break" else "ContinueStatement"
+            jump = Obj(_cls=cls_j, label=(Obj(name="L") if rec0["labelled"] else None), loc=None)
+            node = Obj(_cls="IfStatement", test=Obj(kind="test"), consequent=jump, alternate=None, loc=None)
+            body, line = bodies["IfStatement"]
+            me = Obj(loop_stack=list(stack), _pending_labels=[])
+            sim = Sim({"node": node, "self": me, "None": None, "True": True, "False": False}, methods, classes)
+            status = "ok"
+            try:
+                sim.run(body)
+            except _Return:
+                pass  # the branch ends with an early `return`
+            except Aborted:
+                status = "raised"
+            except Unsupported as e:
+                status = f"unsupported: {e}"
+            except Exception as e:
+                status = f"unsupported: {type(e).__name__}: {e}"
+            if any(ev[0] == "stmt" and ev[1] is jump for ev in sim.events):
+                continue  # compiled through the statement's own branch: judged there
+            if status == "raised":
+                continue
+            rec = {"cls": "IfStatement", "line": line, "stack": stack, "label": rec0["label"], "status": status}
+            rec["events"] = [ev for ev in sim.events if not (ev[0] == "emit" and ev[1] in ("JUMP", "JUMP_IF_TRUE", "JUMP_IF_FALSE")) and not (ev[0] == "expr")]
+            rec["tail"] = []
+            sel = [c for c in stack if (c.break_jumps if rec0["what"] == "break" else c.continue_jumps)]
+            rec["selected"] = sel[0] if sel else None
+            rec["final_stack"] = list(me.loop_stack)
+            i0 = stack0.index(rec0["want"])
+            rec.update(what=rec0["what"], target_kind=rec0["target_kind"], crossed=rec0["crossed"], labelled=rec0["labelled"], want=stack[i0], guarded=True)
+            rec["expected"] = _expected(list(reversed(stack[i0 + 1:])), True)
+            if status == "ok" and rec["selected"] is None:
+                continue  # nothing was attached: the peephole declined
+            records.append(rec)
     # return: every context of the function is left; operands stay (RETURN discards them)
     for crossed in [()] + [(a,) for a in crossables] + [(a, b) for a in crossables for b in crossables if kinds[a]["is_try"] or kinds[b]["is_try"]]:
         for has_arg in (False, True):
@@ -195,7 +246,7 @@ def check(rec) -> Dict[str, Optional[str]]:
     finalizers (which, in what order, compiled against which stack)."""
     res: Dict[str, Optional[str]] = {"target": None, "operands": None, "handlers": None, "finalizers": None}
     what = rec["what"]
-    where = f"{what}{' L' if rec['labelled'] else ''} inside {' inside '.join(reversed(rec['crossed'])) or 'nothing else'}" + (f" inside {rec['target_kind']}" if rec["target_kind"] else "")
+    where = f"{'if (..) ' if rec.get('guarded') else ''}{what}{' L' if rec['labelled'] else ''} inside {' inside '.join(reversed(rec['crossed'])) or 'nothing else'}" + (f" inside {rec['target_kind']}" if rec["target_kind"] else "")
     if rec["status"].startswith("unsupported"):
         msg = f"{where}: the leave code uses a construct the analysis cannot interpret ({rec['status'][13:]})"
         return {k: msg for k in res}
